@@ -72,10 +72,11 @@ def m64_binary(op, a, b):
             return None
         q = abs(a) // abs(b) * (1 if (a < 0) == (b < 0) else -1)
         return wrap(q) if op == "/" else wrap(a - q * b)
+    # cexpr shifts Wrapping<i64> by `count as usize`, which the Wrapping impl masks to 6 bits (also for negative counts)
     if op == "<<":
-        return wrap(a << (b & 63)) if b >= 0 else None
+        return wrap(a << (b & 63))
     if op == ">>":
-        return wrap(a >> (b & 63)) if b >= 0 else None
+        return wrap(a >> (b & 63))
     if op == "&":
         return wrap(a & b)
     if op == "|":
@@ -116,6 +117,14 @@ def macros(tier):
     for a, b in itertools.product(sub, repeat=2):
         for op in BINARY:
             add(E(f"({a.text} {op} {b.text})", m64_binary(op, a.m64, b.m64)))
+    if tier == "thorough":
+        # depth 2: ((a op1 b) op2 c) and (a op1 (b op2 c)) over a 6-literal alphabet and all operator pairs
+        six = [E(t, wrap(lit_value(t))) for t in ("1", "2", "31", "0x80000000", "0xffffffffu", "1ull")]
+        for a, b, c in itertools.product(six, repeat=3):
+            for op1 in BINARY:
+                for op2 in BINARY:
+                    add(E(f"(({a.text} {op1} {b.text}) {op2} {c.text})", m64_binary(op2, m64_binary(op1, a.m64, b.m64), c.m64)))
+                    add(E(f"({a.text} {op1} ({b.text} {op2} {c.text}))", m64_binary(op1, a.m64, m64_binary(op2, b.m64, c.m64))))
     # negative left operands, nested, ternary, casts, sizeof, references, char literals
     for a in sub[:8]:
         for b in sub[:8]:
